@@ -321,6 +321,14 @@ let q_struct (k : int) (it : item) (args : string list) : string =
         | SingleNamed (n, r) -> string_of_str n ^ ":" ^ (if r then "v" else "r") in
       let arm (i, b) = Printf.sprintf "v%d:%s" (i_nat i) (match b with AStr l -> "S:" ^ hex_of_str l | AInner sg -> "I:" ^ single sg) in
       "[" ^ String.concat ";" (List.map arm c.mc_arms @ (if c.mc_wild_panic then ["W"] else [])) ^ "]") (gen_as_ref it)
+  | ["EnumProperty"] ->
+    res_str (fun c ->
+      let tbl show sel =
+        "[" ^ String.concat ";" (List.map (fun (i, a) ->
+                Printf.sprintf "v%d{%s}" (i_nat i) (String.concat "," (List.map (fun (k, v) -> hex_of_str k ^ "=" ^ show v) (sel a)))) c.pc_arms
+              @ (if c.pc_wild then ["W"] else [])) ^ "]" in
+      Printf.sprintf "str=%s|int=%s|bool=%s" (tbl hex_of_str (fun a -> a.pa_str)) (tbl dec_of_z (fun a -> a.pa_int))
+        (tbl (fun b -> if b then "true" else "false") (fun a -> a.pa_bool))) (gen_props it)
   | _ -> failwith "no structural summary for this derive"
 
 (* ----- Display & co ----- *)
